@@ -177,7 +177,9 @@ def concrete(ctor, v):
         except Exception as e:
             return None, 'to_string:' + type(e).__name__
     else:
-        text = values.render(v)
+        # a bare simple-type object emits nothing itself: judge the value, spelled positionally (the element does the rendering)
+        from ..docs import render_value
+        text = render_value(v) if isinstance(v, float) and v == v and v not in (float('inf'), float('-inf')) else values.render(v)
     return True, text
 
 
@@ -248,11 +250,19 @@ def analyse(unit, tier, state_label):
         if len(samples) < 3:
             samples.append(dict(target=unit, state=state_label, offered_as=kind, paths=len(paths), accepting=acc, rejecting=rej,
                                 example_path=[list(map(str, d)) for d in (paths[0]['decisions'] if paths else [])][:8]))
-        if acc == 0 and values.matching_kind(L, kind) and L.kind != 'empty':
+        if acc == 0 and values.matching_kind(L, kind) and L.kind != 'empty' and not any(p['verdict'] == 'leak' for p in paths):
             raise RuntimeError('vacuity guard: no accepting path for %s offered as %s' % (unit, kind))
         if rej == 0 and not (kind == 'str' and L.kind in ('string',) and not L.T.get('enums') and not L.T.get('patterns') and not L.T.get('bounds')) \
                 and not (L.kind == 'empty'):
             stats['no_rejecting_path'] += 1
+    # concrete sweep: representative numbers through the real code, emitted text judged by the concrete validator
+    # (independent of the symbolic rendering model: catches rendering changes the proxies cannot follow)
+    for v in (0, 1, -1, 7, 100, 16385, 0.0, 0.5, -0.5, 2.25, 1e-05, -1e-05, 1e-07, 1e+16, -1e+16, 1.5e+300, 123456.75, float('nan'), float('inf')):
+        ok, text = concrete(ctor, v)
+        stats['paths'] += 1
+        if ok and text is not None and not L.valid_text(text, True):
+            cands.append(dict(cls=unit, kind='accepts-invalid:%s:emitted-text' % type(v).__name__, witness=dict(value=encode(v)),
+                              detail='accepted %r, emitted %r' % (v, text)))
     # concrete kinds: bool, None
     for v in (True, False):
         ok, text = concrete(ctor, v)
@@ -319,7 +329,7 @@ def replay(c):
     v = decode(c['witness']['value'])
     ok, text = concrete(ctor, v)
     if c['kind'].startswith('accepts-invalid'):
-        if ok and not L.valid_text(text, True):
+        if ok and text is not None and not L.valid_text(text, True):
             return True, 'accepted %r and emitted %r' % (v, text)
         return False, 'rejected or text valid (%r, %r)' % (ok, text)
     if c['kind'].startswith('rejects-valid'):
